@@ -635,6 +635,7 @@ func (w *Worker) runPath(it WorkItem) (res PathResult) {
 		dom: map[int32]*[4]uint64{}, multi: map[int32]bool{}}
 	w.p = p
 	w.depth = 0
+	w.pools = map[*Value][]Value{}
 	for k := range w.ts.bind {
 		delete(w.ts.bind, k)
 	}
